@@ -108,6 +108,7 @@ struct Oracle {
   int fam = LCC; EllL E; LD k1 = 1;
   bool polar = false, northp = true, valid = true, twopar = false;
   LD n = 0;
+  LD dn = 0;     // bound on the round-off error of n as evaluated here in long double (two-parallel forms)
   // lcc
   LD A0 = 0, psi0 = 0, psi1 = 0, m1 = 0;
   // alb
@@ -130,6 +131,7 @@ struct Oracle {
     else {
       LD m2 = E.m(p2.s, p2.c), psi2 = E.psi(p2.s, p2.c);
       o.n = logl(o.m1 / m2) / (psi2 - o.psi1);                // Snyder 15-8 with ln t = -psi
+      o.dn = ldexpl(1.0L, -63) * ((fabsl(logl(o.m1)) + fabsl(logl(m2)) + 1) + fabsl(o.n) * (fabsl(o.psi1) + fabsl(psi2))) / fabsl(psi2 - o.psi1);
       o.s0 = o.n; o.c0 = sqrtl((1 - o.n) * (1 + o.n));        // latitude of tangency / minimum scale: sin phi0 = n
       o.psi0 = E.psi(o.s0, o.c0);
       if (!(fabsl(o.n) < 1)) o.valid = false;
@@ -147,6 +149,7 @@ struct Oracle {
     else {
       LD m22 = p2.c * p2.c / (1 - E.e2 * p2.s * p2.s), q2 = E.q(p2.s);
       o.n = (o.m12 - m22) / (q2 - o.q1);                      // Snyder 14-14
+      o.dn = ldexpl(1.0L, -63) * ((o.m12 + m22) + fabsl(o.n) * (fabsl(o.q1) + fabsl(q2))) / fabsl(q2 - o.q1);
       if (o.n == 0) { o.s0 = 0; o.c0 = 1; }
       else {
         // origin = tangency latitude of the equivalent one-parallel projection: (m0^2 + s0 q0)/s0 = C/n with
@@ -170,6 +173,15 @@ struct Oracle {
   // (rho n / a)^2 = C - n q = m1^2 + n (q1 - q)   (Snyder 14-12, 14-13)
   LD R2(LD q) const { return m12 + n * (q1 - q); }
   LD lat0() const { return atan2l(s0, c0) / DEGL; }
+  // The origin of y is a convention (the library uses its OriginLatitude).  For two distinct parallels the tangency
+  // latitude is ill conditioned towards the poles (slope ~ cos^3), so the closed form is evaluated with the origin
+  // reported by the library; the origin itself is judged separately (ob.dl0, ob.y0, ob.eq1).
+  void origin(double lat0deg) {
+    if (polar || fam == PS) return;
+    sincosdL(lat0deg, s0, c0);
+    if (fam == LCC) { psi0 = E.psi(s0, c0); A0 = E.a * k1 * m1 * expl(-n * (psi0 - psi1)); }
+    else { q0 = E.q(s0); R0 = sqrtl(fmaxl(R2(q0), 0.0L)); }
+  }
 
   // lat, dlam in degrees.  Returns false where the closed form is infinite (far pole).
   bool fwd(LD lat, LD dlam, LD& x, LD& y, LD& gam, LD& k) const {
@@ -197,7 +209,7 @@ struct Oracle {
       LD r = expl(-n * d);
       x = A0 * r * lam * sincL(theta);
       y = (std::isinf(d) ? A0 / n : A0 * d * E1L(n * d)) + A0 * r * lam * sinl(theta / 2) * sincL(theta / 2);
-      k = k1 * (m1 / E.m(s, c)) * expl(-n * (ps - psi1));                   // 15-... k = rho n / (a m)
+      k = c == 0 ? INFINITY : k1 * (m1 / E.m(s, c)) * expl(-n * (ps - psi1));   // k = rho n / (a m): infinite at a pole (|n| < 1)
       gam = n * dlam;
       return true;
     }
@@ -303,7 +315,8 @@ static void pt_fields(Rec& r, const Obj& o, const Oracle& orc, const Fam& el, co
   // --- the closed form
   LD X, Y, G, K;
   bool ev = orc.fwd(p.lat, dlam, X, Y, G, K);
-  r.b("ev", ev);
+  r.i("lul", relq(ldexpl(fabsl(dlam) * DEGL, -52) * c));        // one ulp of lon - lon0 in true distance / a
+  r.b("ev", ev).i("ocn", relq(orc.dn)).i("gul", relq(ldexpl(fabsl((LD)g), -52) * DEGL * c));
   if (ev) {
     r.i("df", relq(truedist(o.fam, (LD)x - X, (LD)y - Y, K, G) / E.a));
     r.i("dg", relq(fabsl(remainderl((LD)g - G, 360.0L)) * DEGL * c));
@@ -338,7 +351,7 @@ static const vector<double>& stdspecial() {
 static double pickstd(vt::Rng& g) { return g.range(0, 2) == 0 ? g.pick(stdspecial()) : (g.coin() ? g.uni(-90, 90) : double(g.range(-89, 89))); }
 static double pickk(vt::Rng& g) {
   static const vector<double> v = {0.5, 0.994, 0.9996, 1, 1, 2};
-  return g.range(0, 3) == 0 ? exp(g.uni(log(0.1), log(10))) : g.pick(v);
+  return g.range(0, 3) == 0 ? exp(g.uni(log(0.25), log(4.0))) : g.pick(v);
 }
 static Spec random_spec(vt::Rng& g, int fam) {
   Spec s; s.fam = fam; s.fi = int(g.range(0, (long long)family().size() - 1)); s.northp = g.coin();
@@ -362,8 +375,9 @@ static Spec random_spec(vt::Rng& g, int fam) {
   s.p1 = a; s.p2 = b;
   if (s.ct == 3) {
     Math::sincosd(a, s.s1, s.c1); Math::sincosd(b, s.s2, s.c2);
-    if (g.range(0, 3) == 0) { double m = g.coin() ? 0.5 : 0.25; s.s1 *= m; s.c1 *= m; }   // un-normalised input is allowed (exact scaling)
-    if (g.range(0, 3) == 0) { double m = g.coin() ? 0.5 : 0.125; s.s2 *= m; s.c2 *= m; }
+    // un-normalised input is accepted (|sin| <= 1, cos <= 1); exact scaling; not for a pole (the pole test compares raw values)
+    if (g.range(0, 3) == 0 && s.c1 != 0 && s.c2 != 0) { double m = g.coin() ? 0.5 : 0.25; s.s1 *= m; s.c1 *= m; }
+    if (g.range(0, 3) == 0 && s.c1 != 0 && s.c2 != 0) { double m = g.coin() ? 0.5 : 0.125; s.s2 *= m; s.c2 *= m; }
     s.P1 = par_sc(s.s1, s.c1); s.P2 = par_sc(s.s2, s.c2);
   } else { s.P1 = par_deg(a); s.P2 = par_deg(b); }
   return s;
@@ -383,6 +397,7 @@ static void spec_fields(Rec& r, const Spec& s) {
   r.i("dpq", vt::q1(sep, 1e-9L)).i("sepq", udeg(sep)).i("k1q", vt::q1(s.k1, 1e-6L));
   r.i("sgn", s.fam == PS ? (s.northp ? 1 : -1) : (s.P1.s + s.P2.s >= 0 ? 1 : -1));
   r.b("pol", s.fam == PS || (s.P1.c == 0 && s.P2.c == 0));
+  r.b("same", s.P1.s == s.P2.s && s.P1.c == s.P2.c);
 }
 static string hexin(std::initializer_list<double> v) { string o; for (double d : v) { if (!o.empty()) o += ' '; o += vt::hexf(d); } return o; }
 static double picklat(vt::Rng& g, const Spec& s, const Obj& o) {
@@ -396,86 +411,411 @@ static double picklat(vt::Rng& g, const Spec& s, const Obj& o) {
   }
 }
 
+// known-finding input classes (see notes/C11.md): identified from the INPUTS only
+static string kfclass(const Spec& s, double evlat) {
+  if (s.fam != ALB) return "none";
+  bool same = s.P1.s == s.P2.s && s.P1.c == s.P2.c;
+  if (fabs(evlat) != 90) return "none";
+  if (same) { LD a0 = atan2l(s.P1.s, s.P1.c) / DEGL; return (fabsl(a0) >= 89.99999L && s.P1.c != 0 && a0 * evlat > 0) ? "alb-nearpole-std-at-pole" : "none"; }
+  LD a1 = atan2l(s.P1.s, s.P1.c) / DEGL, a2 = atan2l(s.P2.s, s.P2.c) / DEGL;
+  LD lim = 89.99999L;
+  if (fabsl(a1) >= lim && fabsl(a2) >= lim && a1 * a2 > 0 && a1 * evlat > 0) return "alb-2par-nearpole-at-pole";
+  if ((fabsl(a1) >= lim && s.P1.c != 0 && a1 * evlat > 0) || (fabsl(a2) >= lim && s.P2.c != 0 && a2 * evlat > 0)) return "alb-nearpole-std-at-pole";
+  bool pole1 = s.P1.c == 0, pole2 = s.P2.c == 0;
+  if (pole1 != pole2) { LD ap = pole1 ? a1 : a2; if (ap * evlat > 0) return "alb-2par-pole-std-at-pole"; }
+  return "none";
+}
+
+// ------------------------------------------------------------------ object laws ("ob")
+static void ob_record(vt::Rng& g, const Spec& s, const Obj& o, const Oracle& orc, LD orclat0, const string& cres) {
+  const Fam& el = family()[s.fi]; EllL E(el);
+  Rec r; r.str("e", "ob"); spec_fields(r, s); r.str("out", cres);
+  if (cres != "ok") { r.str("kf", "none"); r.emit(); return; }
+  double lat0 = o.lat0(), k0 = o.k0();
+  r.str("kf", kfclass(s, lat0));
+  r.b("insp", vt::bits(o.a()) == vt::bits(el.a) && vt::bits(o.f()) == vt::bits(el.f));
+  // scale on the standard parallels (zl: a polar parallel of a two-parallel form has zero length)
+  double x, y, gm, k;
+  double q1 = s.fam == PS ? (s.northp ? 90.0 : -90.0) : (double)(atan2l(s.P1.s, s.P1.c) / DEGL);
+  double q2 = s.fam == PS ? q1 : (double)(atan2l(s.P2.s, s.P2.c) / DEGL);
+  if (s.fam != PS && s.ct != 3) { q1 = s.p1; q2 = s.ct == 1 ? s.p1 : s.p2; }
+  bool two = orc.twopar;
+  // weighted by cos(parallel): "errors in ... scale are consistent with" a position error (d ln k / d lat ~ 1 / cos lat)
+  LD cq1, cq2, sq_; sincosdL(q1, sq_, cq1); sincosdL(q2, sq_, cq2);
+  o.fwd(0, q1, 0, x, y, gm, k); r.i("ks1", relq(fabsl((LD)k - s.k1) / s.k1 * cq1)).b("zl1", two && s.P1.c == 0).i("kcn1", relq(ldexpl(1.0L, -52) / cq1));
+  o.fwd(0, q2, 0, x, y, gm, k); r.i("ks2", relq(fabsl((LD)k - s.k1) / s.k1 * cq2)).b("zl2", two && s.P2.c == 0).i("kcn2", relq(ldexpl(1.0L, -52) / cq2));
+  // origin: between the parallels, scale there = CentralScale, not larger than the scale on the parallels, image (0, 0)
+  LD lo = fminl((LD)q1, (LD)q2), hi = fmaxl((LD)q1, (LD)q2);
+  r.i("blo", fdeg((LD)lat0 - lo)).i("bhi", fdeg(hi - (LD)lat0));
+  o.fwd(0, lat0, 0, x, y, gm, k);
+  r.i("kc", relq(fabsl((LD)k - k0) / k0)).i("kmin", relq(((LD)k0 - s.k1) / s.k1));
+  r.i("y0", relq(truedist(s.fam, x, y, k0, gm) / E.a));
+  // origin latitude against the closed form (1e-15 degree); c0q = cos(lat0) in 1e-9 (conditioning of the closed form)
+  { LD so, co; sincosdL(lat0, so, co); r.b("oev", orc.valid).i("dl0", orc.valid ? fdeg(fabsl((LD)lat0 - orclat0)) : -1).i("c0q", vt::q1(co, 1e-9L)); }
+  // the one-parallel object with (OriginLatitude, CentralScale) describes the same projection
+  long long eq1 = -1, eqd = -1;
+  LD wamp = 0, wcnd = 0;
+  auto note = [&](double lat, double xx, double yy, double kk0) {
+    LD sl, cl; sincosdL(lat, sl, cl); LD kk = fabsl((LD)kk0);
+    wamp = fmaxl(wamp, ldexpl(fmaxl(fabsl((LD)xx), fabsl((LD)yy)), -52) * (s.fam == ALB ? fmaxl(kk, 1 / kk) : 1 / kk) / E.a);
+    wcnd = fmaxl(wcnd, ldexpl(1.0L, -52) / cl);
+  };
+  if (s.fam != PS) {
+    Obj o1; string r1 = guarded([&] { o1 = make(s.fam, 1, el, lat0, lat0, 0, 1, 0, 1, k0); });
+    if (r1 == "ok") {
+      LD worst = 0, wd = 0;
+      for (int j = 0; j < 3; ++j) {
+        double lat = (j == 0 && fabs(lat0) < 89) ? lat0 : g.uni(-80, 80), lon = g.uni(-170, 170);
+        double x1, y1, g1, k1v; o.fwd(0, lat, lon, x, y, gm, k); o1.fwd(0, lat, lon, x1, y1, g1, k1v);
+        if (fabs(gm) > 170) continue;
+        note(lat, x, y, k);
+        worst = fmaxl(worst, truedist(s.fam, (LD)x1 - x, (LD)y1 - y, k, gm) / E.a);
+        wd = fmaxl(wd, fmaxl(truedist(s.fam, x, y, k, gm) / E.a, fabsl((LD)lat - lat0) * DEGL));   // reach of a relative scale error
+      }
+      eq1 = relq(worst); eqd = vt::q1(wd, 1e-6L);
+    }
+  }
+  r.i("eq1", eq1).i("eqd", eqd);
+  // argument order and the sin/cos form denote the same projection
+  long long swd = -1, scd = -1; bool swb = true;
+  if (s.fam != PS && s.ct == 2) {
+    Obj o2, o3; double s1, c1, s2, c2; Math::sincosd(s.p1, s1, c1); Math::sincosd(s.p2, s2, c2);
+    string r2 = guarded([&] { o2 = make(s.fam, 2, el, s.p2, s.p1, 0, 1, 0, 1, s.k1); });
+    string r3 = guarded([&] { o3 = make(s.fam, 3, el, 0, 0, s1, c1, s2, c2, s.k1); });
+    double lat = g.uni(-80, 80), lon = g.uni(-170, 170), x1, y1, g1, k1v;
+    o.fwd(3, lat, lon, x, y, gm, k); note(lat, x, y, k);
+    if (r2 == "ok") {
+      o2.fwd(3, lat, lon, x1, y1, g1, k1v);
+      swd = relq(fmaxl(truedist(s.fam, (LD)x1 - x, (LD)y1 - y, k, gm) / E.a, fmaxl(fabsl((LD)o2.k0() - k0) / k0, fabsl((LD)o2.lat0() - lat0) * DEGL)));
+      swb = same4(x, y, gm, k, x1, y1, g1, k1v);
+    } else swd = 2000000001LL;
+    if (r3 == "ok") {
+      o3.fwd(3, lat, lon, x1, y1, g1, k1v);
+      scd = relq(fmaxl(truedist(s.fam, (LD)x1 - x, (LD)y1 - y, k, gm) / E.a, fmaxl(fabsl((LD)o3.k0() - k0) / k0, fabsl((LD)o3.lat0() - lat0) * DEGL)));
+    } else scd = 2000000001LL;
+  }
+  r.i("swd", swd).i("scd", scd).b("swb", swb).i("amp", relq(wamp)).i("cnd", relq(wcnd));
+  r.str("in", hexin({el.a, el.f, s.p1, s.p2, s.s1, s.c1, s.s2, s.c2, s.k1}));
+  r.emit();
+}
+
+// ------------------------------------------------------------------ cross-class limits ("lim")
+// ps  : LambertConformalConic(stdlat = +-90) against PolarStereographic
+// merc: LambertConformalConic(stdlat = 0) against a k0 psi with psi = Ellipsoid::IsometricLatitude
+// cea : AlbersEqualArea(stdlat = 0) against Ellipsoid::AuthalicLatitude / Area:  y = R_q^2 sin(xi) / (a k0)
+// az  : AlbersEqualArea(stdlat = +-90) against rho = R_q sqrt(2 (1 -+ sin xi)) / k0, theta = k0^2 dlam
+static void lim_record(vt::Rng& g) {
+  int fi = int(g.range(0, (long long)family().size() - 1)); const Fam& el = family()[fi]; EllL E(el);
+  double k0 = pickk(g);
+  int kind = int(g.range(0, 3));
+  static const char* KN[] = {"ps", "merc", "cea", "az"};
+  double lat = g.range(0, 7) == 0 ? double(g.range(-90, 90)) : g.uni(-90, 90);
+  if (g.range(0, 9) == 0) lat = (g.coin() ? 1 : -1) * (90 - pow(10.0, -double(g.range(1, 10))));
+  double lon0 = g.range(0, 2) == 0 ? 0 : g.uni(-540, 540), lon = lon0 + g.uni(-179.5, 179.5);
+  bool north = g.coin();
+  Rec r; r.str("e", "lim").str("lk", KN[kind]).i("fi", fi).i("k1q", vt::q1(k0, 1e-6L)).b("np", north).i("latq", udeg(lat));
+  double e1 = 0, dl = Math::AngDiff(lon0, lon, e1); LD dlam = (LD)dl + e1;
+  LD s, c; sincosdL(lat, s, c);
+  r.i("dlq", udeg(dlam)).i("cosq", vt::q1(c, 1e-9L)).i("cnd", relq(ldexpl(1.0L, -52) / c));
+  double x, y, gm, k; long long d = -1, dk = -1, dg = -1, dr = -1; bool fin = false; LD kk = 1;
+  try {
+    if (kind == 0) {
+      LambertConformalConic L(el.a, el.f, north ? 90.0 : -90.0, k0); PolarStereographic P(el.a, el.f, k0);
+      L.Forward(lon0, lat, lon, x, y, gm, k); fin = fin4(x, y, gm, k); kk = k;
+      double x2, y2, g2, k2; P.Forward(north, lat, dl, x2, y2, g2, k2);
+      d = relq(hypotl((LD)x - x2, (LD)y - y2) / k2 / E.a); dk = relq(fabsl((LD)k - k2) / k2 * c); dg = relq(fabsl(remainderl((LD)gm - g2, 360.0L)) * DEGL * c);
+      double la, lo, la2, lo2; L.Reverse(lon0, x2, y2, la, lo, gm, k); P.Reverse(north, x2, y2, la2, lo2, g2, k2);
+      lo2 = Math::AngNormalize(lo2 + Math::AngNormalize(lon0));
+      dr = relq(E.dist(la2, lo2, la, lo) / E.a);
+    } else if (kind == 1) {
+      LambertConformalConic L(el.a, el.f, 0.0, k0); Ellipsoid EL(el.a, el.f);
+      L.Forward(lon0, lat, lon, x, y, gm, k); fin = fin4(x, y, gm, k); kk = k;
+      LD psi = (LD)EL.IsometricLatitude(lat) * DEGL;
+      LD K = k0 * sqrtl(1 - E.e2 * s * s) / c;                       // Snyder 7-8
+      d = relq(hypotl((LD)x - E.a * k0 * dlam * DEGL, (LD)y - E.a * k0 * psi) / K / E.a); dk = relq(fabsl((LD)k - K) / K * c); dg = relq(fabsl((LD)gm) * DEGL * c);
+      dr = 0;
+    } else {
+      Ellipsoid EL(el.a, el.f);
+      LD Rq2 = (LD)EL.Area() / (4 * PIL);
+      LD xi = (LD)EL.AuthalicLatitude(lat), sx, cx; sincosdL(xi, sx, cx);
+      LD X, Y, K, G;
+      if (kind == 2) {
+        AlbersEqualArea A(el.a, el.f, 0.0, k0); A.Forward(lon0, lat, lon, x, y, gm, k);
+        X = E.a * k0 * dlam * DEGL; Y = Rq2 * sx / (E.a * k0); K = k0 * sqrtl(1 - E.e2 * s * s) / c; G = 0;
+      } else {
+        AlbersEqualArea A(el.a, el.f, north ? 90.0 : -90.0, k0); A.Forward(lon0, lat, lon, x, y, gm, k);
+        LD sg = north ? 1 : -1;
+        LD colat = 90.0L - sg * xi, rho = 2 * sqrtl(Rq2) * sinl(colat / 2 * DEGL) / k0, th = (LD)k0 * k0 * dlam;   // sqrt(2 (1 - sin xi)) = 2 sin(colat/2)
+        LD st, ct; sincosdL(th, st, ct);
+        X = rho * st; Y = -sg * rho * ct; G = sg * th;
+        K = c == 0 ? (sg * lat > 0 ? (LD)k0 : INFINITY) : k0 * rho * k0 / (E.a * E.m(s, c));
+      }
+      fin = fin4(x, y, gm, k); kk = k;
+      d = relq(truedist(ALB, (LD)x - X, (LD)y - Y, K, G) / E.a);
+      dk = std::isfinite((double)K) ? relq(fabsl((LD)k - K) / K * c) : -1;
+      dg = relq(fabsl((LD)gm - G) * DEGL * c);
+      dr = 0;
+    }
+  } catch (const std::exception&) { fin = false; }
+  LD amp = ldexpl(fmaxl(fabsl((LD)x), fabsl((LD)y)), -52) * (kind >= 2 ? fmaxl(fabsl(kk), 1 / fabsl(kk)) : 1 / fabsl(kk));
+  r.b("fin", fin).i("amp", relq(amp / E.a)).i("gul", relq(ldexpl(fabsl((LD)gm), -52) * DEGL * c));
+  r.i("d", d).i("dk", dk).i("dg", dg).i("dr", dr);
+  r.str("in", hexin({el.a, el.f, k0, lon0, lat, lon}));
+  r.emit();
+}
+
+// ------------------------------------------------------------------ SetScale ("ss")
+static void ss_record(vt::Rng& g) {
+  int fam = int(g.range(0, 2));
+  Spec s = random_spec(g, fam);
+  const Fam& el = family()[s.fi]; EllL E(el);
+  double lats = g.range(0, 3) == 0 ? double(g.range(-89, 89)) : g.uni(-89.9, 89.9), ks = pickk(g);
+  Rec r; r.str("e", "ss"); spec_fields(r, s); r.i("lsq", udeg(lats)).i("ksq", vt::q1(ks, 1e-6L));
+  Obj o; string cres = guarded([&] { o = make(s); });
+  if (cres != "ok") { r.str("out", "ctor-throw"); r.emit(); return; }
+  double lat0 = o.lat0(), k0old = o.k0();
+  string sres = guarded([&] { if (fam == PS) o.ps->SetScale(lats, ks); else if (fam == LCC) o.lcc->SetScale(lats, ks); else o.alb->SetScale(lats, ks); });
+  r.str("out", sres);
+  if (sres == "ok") {
+    double x, y, gm, k;
+    // the scale at lats is ks (PS: SetScale refers to northp = true)
+    if (fam == PS) o.ps->Forward(true, lats, 0, x, y, gm, k); else o.fwd(0, lats, 0, x, y, gm, k);
+    r.i("ksr", relq(fabsl((LD)k - ks) / ks));
+    r.b("lat0b", vt::bits(o.lat0()) == vt::bits(lat0));
+    // "SetScale(lat, k) == constructing with the scale it implies": same constructor, k1' = k1 CentralScale'/CentralScale
+    double k1n = s.k1 * (o.k0() / k0old);
+    Obj b; string bres = guarded([&] { b = make(s.fam, s.ct, el, s.p1, s.p2, s.s1, s.c1, s.s2, s.c2, k1n, s.northp); });
+    long long eqf = 2000000001LL, eqr = 2000000001LL, eqk = 2000000001LL, ampm = 0, cndm = 0;
+    if (bres == "ok") {
+      LD wf = 0, wr = 0, wk = fabsl((LD)b.k0() - o.k0()) / o.k0(), wa = 0, wc = 0;
+      for (int j = 0; j < 3; ++j) {
+        double lat = g.uni(-85, 85), lon0 = j == 0 ? 0 : g.uni(-180, 180), lon = lon0 + g.uni(-170, 170);
+        double x1, y1, g1, k1v; o.fwd(lon0, lat, lon, x, y, gm, k); b.fwd(lon0, lat, lon, x1, y1, g1, k1v);
+        if (fabs(gm) > 170) continue;
+        wf = fmaxl(wf, truedist(fam, (LD)x1 - x, (LD)y1 - y, k, gm) / E.a);
+        wk = fmaxl(wk, fabsl((LD)k1v - k) / k);
+        double la, lo, la1, lo1; o.rev(lon0, x, y, la, lo, g1, k1v); b.rev(lon0, x, y, la1, lo1, g1, k1v);
+        wr = fmaxl(wr, E.dist(la, lo, la1, lo1) / E.a);
+        LD kk = fabsl((LD)k), sl, cl; sincosdL(lat, sl, cl);
+        wa = fmaxl(wa, ldexpl(fmaxl(fabsl((LD)x), fabsl((LD)y)), -52) * (fam == ALB ? fmaxl(kk, 1 / kk) : 1 / kk) / E.a);
+        wc = fmaxl(wc, ldexpl(1.0L, -52) / cl);
+      }
+      eqf = relq(wf); eqr = relq(wr); eqk = relq(wk); ampm = relq(wa); cndm = relq(wc);
+    }
+    r.str("bout", bres).i("eqf", eqf).i("eqr", eqr).i("eqk", eqk).i("amp", ampm).i("cnd", cndm);
+  }
+  r.str("in", hexin({el.a, el.f, s.p1, s.p2, s.s1, s.c1, s.s2, s.c2, s.k1, lats, ks}));
+  r.emit();
+}
+
+// ------------------------------------------------------------------ static singletons ("sg")
+static void sg_records(vt::Rng& g) {
+  const double a = Constants::WGS84_a(), f = Constants::WGS84_f();
+  for (int w = 0; w < 5; ++w) {
+    static const char* WN[] = {"UPS", "Mercator", "CylindricalEqualArea", "AzimuthalEqualAreaNorth", "AzimuthalEqualAreaSouth"};
+    bool same = true, insp = true;
+    for (int j = 0; j < 8 && same; ++j) {
+      double lat = j == 0 ? 90 : j == 1 ? -90 : j == 2 ? 0 : g.uni(-90, 90), lon = g.uni(-180, 180), lon0 = g.uni(-180, 180);
+      double x, y, gm, k, x1, y1, g1, k1, la, lo, la1, lo1;
+      if (w == 0) {
+        PolarStereographic P(a, f, Constants::UPS_k0()); const PolarStereographic& S = PolarStereographic::UPS();
+        bool np = g.coin(); S.Forward(np, lat, lon, x, y, gm, k); P.Forward(np, lat, lon, x1, y1, g1, k1); same = same && same4(x, y, gm, k, x1, y1, g1, k1);
+        S.Reverse(np, x, y, la, lo, gm, k); P.Reverse(np, x, y, la1, lo1, g1, k1); same = same && same4(la, lo, gm, k, la1, lo1, g1, k1);
+        insp = vt::bits(S.EquatorialRadius()) == vt::bits(a) && vt::bits(S.Flattening()) == vt::bits(f) && vt::bits(S.CentralScale()) == vt::bits(0.994);
+      } else if (w == 1) {
+        LambertConformalConic P(a, f, 0.0, 1.0); const LambertConformalConic& S = LambertConformalConic::Mercator();
+        S.Forward(lon0, lat, lon, x, y, gm, k); P.Forward(lon0, lat, lon, x1, y1, g1, k1); same = same && same4(x, y, gm, k, x1, y1, g1, k1);
+        S.Reverse(lon0, x, y, la, lo, gm, k); P.Reverse(lon0, x, y, la1, lo1, g1, k1); same = same && same4(la, lo, gm, k, la1, lo1, g1, k1);
+        insp = vt::bits(S.EquatorialRadius()) == vt::bits(a) && vt::bits(S.Flattening()) == vt::bits(f) && S.OriginLatitude() == 0 && S.CentralScale() == 1;
+      } else {
+        double sl = w == 2 ? 0.0 : w == 3 ? 90.0 : -90.0;
+        AlbersEqualArea P(a, f, sl, 1.0);
+        const AlbersEqualArea& S = w == 2 ? AlbersEqualArea::CylindricalEqualArea() : w == 3 ? AlbersEqualArea::AzimuthalEqualAreaNorth() : AlbersEqualArea::AzimuthalEqualAreaSouth();
+        S.Forward(lon0, lat, lon, x, y, gm, k); P.Forward(lon0, lat, lon, x1, y1, g1, k1); same = same && same4(x, y, gm, k, x1, y1, g1, k1);
+        S.Reverse(lon0, x, y, la, lo, gm, k); P.Reverse(lon0, x, y, la1, lo1, g1, k1); same = same && same4(la, lo, gm, k, la1, lo1, g1, k1);
+        insp = vt::bits(S.EquatorialRadius()) == vt::bits(a) && vt::bits(S.Flattening()) == vt::bits(f) && S.OriginLatitude() == sl && S.CentralScale() == 1;
+      }
+    }
+    Rec r; r.str("e", "sg").str("which", WN[w]).b("same", same).b("insp", insp); r.emit();
+  }
+}
+
+// vt::Rng(seed) starts the same splitmix64 counter sequence at offset seed, so consecutive seeds give the same stream shifted
+// by one draw; hash the seed so that different seeds give unrelated samples.
+static uint64_t mix64(uint64_t z) {
+  z += 0x9E3779B97F4A7C15ULL; z = (z ^ (z >> 30)) * 0xBF58476D1CE4E5B9ULL; z = (z ^ (z >> 27)) * 0x94D049BB133111EBULL; return z ^ (z >> 31);
+}
 static void do_record(uint64_t seed, long long nobj) {
-  vt::Rng g(seed);
+  vt::Rng g(mix64(seed));
   for (long long it = 0; it < nobj; ++it) {
     int fam = int(it % 3);
     Spec s = random_spec(g, fam);
     const Fam& el = family()[s.fi];
-    EllL E(el);
     Obj o; string cres = guarded([&] { o = make(s); });
     Oracle orc = oracle(s);
-    // ---------------- object laws
-    {
-      Rec r; r.str("e", "ob"); spec_fields(r, s); r.str("out", cres);
-      if (cres == "ok") {
-        double lat0 = o.lat0(), k0 = o.k0();
-        r.b("insp", vt::bits(o.a()) == vt::bits(el.a) && vt::bits(o.f()) == vt::bits(el.f));
-        // scale on the standard parallels
-        double x, y, gm, k;
-        double q1 = s.fam == PS ? (s.northp ? 90.0 : -90.0) : (s.ct == 3 ? Math::atan2d(s.s1, s.c1) : s.p1);
-        double q2 = s.fam == PS ? q1 : (s.ct == 3 ? Math::atan2d(s.s2, s.c2) : s.p2);
-        o.fwd(0, q1, 0, x, y, gm, k); r.i("ks1", relq(fabsl((LD)k - s.k1) / s.k1));
-        o.fwd(0, q2, 0, x, y, gm, k); r.i("ks2", relq(fabsl((LD)k - s.k1) / s.k1));
-        // origin: between the parallels, scale there = CentralScale, not larger than the scale on the parallels, y = 0
-        LD lo = fminl((LD)q1, (LD)q2), hi = fmaxl((LD)q1, (LD)q2);
-        r.i("blo", fdeg((LD)lat0 - lo)).i("bhi", fdeg(hi - (LD)lat0));
-        o.fwd(0, lat0, 0, x, y, gm, k);
-        r.i("kc", relq(fabsl((LD)k - k0) / k0)).i("kmin", relq(((LD)k0 - s.k1) / s.k1));
-        r.i("y0", relq(hypotl((LD)x, (LD)y) / k0 / E.a));
-        // origin latitude against the closed form (radians x local metric -> true distance / a)
-        r.b("oev", orc.valid);
-        { LD so, co; sincosdL(lat0, so, co); r.i("dl0", orc.valid ? relq(fabsl((LD)lat0 - orc.lat0()) * DEGL * E.Mrad(so) / E.a) : -1); }
-        // the one-parallel object with (OriginLatitude, CentralScale) describes the same projection
-        long long eq1 = -1, eqd = -1;
-        if (s.fam != PS) {
-          Obj o1; string r1 = guarded([&] { o1 = make(s.fam, 1, el, lat0, lat0, 0, 1, 0, 1, k0); });
-          if (r1 == "ok") {
-            LD worst = 0, wd = 0;
-            for (int j = 0; j < 3; ++j) {
-              double lat = j == 0 ? lat0 : g.uni(-80, 80), lon = g.uni(-170, 170);
-              double x1, y1, g1, k1v; o.fwd(0, lat, lon, x, y, gm, k); o1.fwd(0, lat, lon, x1, y1, g1, k1v);
-              worst = fmaxl(worst, truedist(s.fam, (LD)x1 - x, (LD)y1 - y, k, gm) / E.a);
-              // distance of the point from the origin, in true metres / a (how far a relative scale error can act)
-              wd = fmaxl(wd, truedist(s.fam, x, y, k, gm) / E.a);
-            }
-            eq1 = relq(worst); eqd = vt::q1(wd, 1e-6L);
-          }
-        }
-        r.i("eq1", eq1).i("eqd", eqd);
-        // argument order and the sin/cos form: the same projection
-        bool sw = true, sc = true;
-        if (s.fam != PS && s.ct == 2) {
-          Obj o2, o3; double s1, c1, s2, c2; Math::sincosd(s.p1, s1, c1); Math::sincosd(s.p2, s2, c2);
-          string r2 = guarded([&] { o2 = make(s.fam, 2, el, s.p2, s.p1, 0, 1, 0, 1, s.k1); });
-          string r3 = guarded([&] { o3 = make(s.fam, 3, el, 0, 0, s1, c1, s2, c2, s.k1); });
-          double lat = g.uni(-80, 80), lon = g.uni(-170, 170), x1, y1, g1, k1v;
-          o.fwd(3, lat, lon, x, y, gm, k);
-          if (r2 == "ok") { o2.fwd(3, lat, lon, x1, y1, g1, k1v); sw = same4(x, y, gm, k, x1, y1, g1, k1v) && vt::bits(o2.lat0()) == vt::bits(lat0) && vt::bits(o2.k0()) == vt::bits(k0); } else sw = false;
-          if (r3 == "ok") { o3.fwd(3, lat, lon, x1, y1, g1, k1v); sc = same4(x, y, gm, k, x1, y1, g1, k1v); } else sc = false;
-        }
-        r.b("sw", sw).b("sc", sc);
-      }
-      r.emit();
-    }
+    LD orclat0 = orc.lat0();
+    if (cres == "ok" && orc.twopar) orc.origin(o.lat0());
+    ob_record(g, s, o, orc, orclat0, cres);
     if (cres != "ok") continue;
-    // ---------------- point laws
     for (int j = 0; j < 4; ++j) {
       PtIn p; p.fi = s.fi; p.lat = picklat(g, s, o);
       int w = int(g.range(0, 7));
       p.lon0 = w == 0 ? 0 : w == 1 ? double(g.range(-6, 6)) * 90 : g.uni(-540, 540);
       p.lon = w == 2 ? p.lon0 : w == 3 ? p.lon0 + double(g.range(-1, 1)) * 90 : w == 4 ? g.uni(-540, 540) : p.lon0 + g.uni(-179.5, 179.5);
       if (s.fam == PS && g.coin()) p.lon0 = 0;
-      Rec r; r.str("e", "pt"); spec_fields(r, s);
+      Rec r; r.str("e", "pt"); spec_fields(r, s); r.str("kf", kfclass(s, p.lat));
       pt_fields(r, o, orc, el, p, true);
       r.str("in", hexin({el.a, el.f, s.p1, s.p2, s.s1, s.c1, s.s2, s.c2, s.k1, p.lon0, p.lat, p.lon}));
       r.emit();
     }
+    if (it % 4 == 0) lim_record(g);
+    if (it % 4 == 1) ss_record(g);
+  }
+  sg_records(g);
+}
+
+// ------------------------------------------------------------------ replay of TLC vectors
+static double kval(int c) { switch (c) { case 1: return 0.5; case 2: return 1; case 3: return 2; case 0: return 0; case -1: return -1; case 8: return INFINITY; default: return Math::NaN(); } }
+static double fval(int c) { switch (c) { case 0: return 0; case 1: return 1 / 298.257223563; case 2: return -1.0 / 150; case 3: return 0.5; case 5: return 1; case 6: return 1.5; case 7: return -INFINITY; case 8: return INFINITY; default: return Math::NaN(); } }
+static double aval(int c) { switch (c) { case 0: return 6378137; case 1: return 1; case 5: return 0; case 6: return -1; case 8: return INFINITY; default: return Math::NaN(); } }
+static void sccode(int c, int ct, double& s, double& cs) {
+  if (c >= -90 && c <= 90) Math::sincosd(double(c), s, cs);
+  else switch (c) {
+    case 100: s = 0; cs = 0; break; case 101: s = 0.5; cs = -0.5; break; case 102: s = 1.5; cs = 0; break;
+    case 103: s = 0; cs = 1.5; break; case 104: s = 0.3; cs = 0.4; break; default: s = Math::NaN(); cs = 1; break;
+  }
+  if (ct == 4 && ((c >= -90 && c <= 90) || c == 104)) { s *= 0.5; cs *= 0.5; }
+}
+static long long I(const string& t) { return atoll(t.c_str()); }
+
+static void do_ctor(const vector<string>& t) {
+  string fam = t[1]; int ct = int(I(t[2])); long long p1 = I(t[3]), p2 = I(t[5]); int d1 = int(I(t[4])), d2 = int(I(t[6]));
+  int kc = int(I(t[7])), fc = int(I(t[8])), ac = int(I(t[9]));
+  Fam el{aval(ac), fval(fc)}; double k = kval(kc);
+  int f = fam == "ps" ? PS : fam == "lcc" ? LCC : ALB;
+  double s1 = 0, c1 = 1, s2 = 0, c2 = 1;
+  if (ct >= 3) { sccode(int(p1), ct, s1, c1); sccode(int(p2), ct, s2, c2); }
+  Obj o; string res = guarded([&] { o = make(f, ct >= 3 ? 3 : ct, el, vt::eps(p1, d1), vt::eps(p2, d2), s1, c1, s2, c2, k); });
+  Rec r; r.str("e", "ctor").str("fam", fam).i("ct", ct).li("P1", {p1, d1}).li("P2", {p2, d2}).i("kc", kc).i("fc", fc).i("ac", ac).str("out", res);
+  bool fin = false, insp = false;
+  if (res == "ok") {
+    double x, y, g, kk; o.fwd(0, 10, 20, x, y, g, kk); fin = fin4(x, y, g, kk) && kk > 0;
+    insp = vt::bits(o.a()) == vt::bits(el.a) && vt::bits(o.f()) == vt::bits(el.f) && fabs(o.lat0()) <= 90 && o.k0() > 0;
+  }
+  r.b("fin", fin).b("insp", insp); r.emit();
+}
+
+static void do_sets(const vector<string>& t) {
+  string fam = t[1], pol = t[2]; long long p = I(t[3]); int d = int(I(t[4])), kc = int(I(t[5]));
+  int f = fam == "ps" ? PS : fam == "lcc" ? LCC : ALB;
+  Fam el{6378137, 1 / 298.257223563};
+  double sl = pol == "np" ? 90 : pol == "sp" ? -90 : 40;
+  Obj o = make(f, 1, el, sl, sl, 0, 1, 0, 1, 1.0, true);
+  double lat = vt::eps(p, d), k = kval(kc);
+  double x0, y0, g0, k0; o.fwd(0, 33, 44, x0, y0, g0, k0);
+  string res = guarded([&] { if (f == PS) o.ps->SetScale(lat, k); else if (f == LCC) o.lcc->SetScale(lat, k); else o.alb->SetScale(lat, k); });
+  double x1, y1, g1, k1; o.fwd(0, 33, 44, x1, y1, g1, k1);
+  Rec r; r.str("e", "sets").str("fam", fam).str("pol", pol).li("lat", {p, d}).i("kc", kc).str("out", res);
+  r.b("unch", same4(x0, y0, g0, k0, x1, y1, g1, k1));
+  long long ksr = -1;
+  if (res == "ok") { double x, y, g, kk; if (f == PS) o.ps->Forward(true, lat, 0, x, y, g, kk); else o.fwd(0, lat, 0, x, y, g, kk); ksr = relq(fabsl((LD)kk - k) / k); }
+  r.i("ksr", ksr); r.emit();
+}
+
+static Obj make_desc(const string& fam, int ct, long long p1, long long p2, int kc, const Fam& el) {
+  int f = fam == "ps" ? PS : fam == "lcc" ? LCC : ALB;
+  double s1 = 0, c1 = 1, s2 = 0, c2 = 1;
+  if (ct >= 3) { sccode(int(p1), ct, s1, c1); sccode(int(p2), ct, s2, c2); }
+  return make(f, ct >= 3 ? 3 : (ct == 0 ? 1 : ct), el, double(p1), double(p2), s1, c1, s2, c2, kval(kc), p1 > 0);
+}
+
+static void do_sym(const vector<string>& t) {
+  // sym fam s m e u v kc p1 p2 lat lon lon0 p1' p2' s' lat' lon' lon0' a b c d sg rq
+  string fam = t[1]; long long s = I(t[2]); vector<long long> g = {I(t[3]), I(t[4]), I(t[5]), I(t[6])}; int kc = int(I(t[7]));
+  vector<long long> bin = {I(t[8]), I(t[9]), I(t[10]), I(t[11]), I(t[12])}, tin = {I(t[13]), I(t[14]), I(t[15]), I(t[16]), I(t[17]), I(t[18])};
+  vector<long long> rep = {I(t[19]), I(t[20]), I(t[21]), I(t[22]), I(t[23]), I(t[24])};
+  static const int FIS[] = {0, 8};
+  for (int fi : FIS) {
+    const Fam& el = family()[fi]; EllL E(el);
+    Rec r; r.str("e", "sym").str("fam", fam).i("s", s).li("g", g).i("kc", kc).li("bin", bin).li("tin", tin).li("rep", rep).i("fi", fi);
+    double x, y, gm, k, x2, y2, g2, k2; bool ok = true;
+    string res = guarded([&] {
+      Obj a = make_desc(fam, fam == "ps" ? 0 : (bin[0] == bin[1] ? 1 : 2), fam == "ps" ? 90 * s : bin[0], fam == "ps" ? 90 * s : bin[1], kc, el);
+      Obj b = make_desc(fam, fam == "ps" ? 0 : (tin[0] == tin[1] ? 1 : 2), fam == "ps" ? 90 * tin[2] : tin[0], fam == "ps" ? 90 * tin[2] : tin[1], kc, el);
+      a.fwd(double(bin[4]), double(bin[2]), double(bin[3]), x, y, gm, k);
+      b.fwd(double(tin[5]), double(tin[3]), double(tin[4]), x2, y2, g2, k2);
+    });
+    ok = res == "ok" && fin4(x, y, gm, k) && fin4(x2, y2, g2, k2);
+    LD xp = rep[0] * (LD)x + rep[1] * (LD)y, yp = rep[2] * (LD)x + rep[3] * (LD)y, gp = rep[4] * (LD)gm + 90.0L * rep[5];
+    LD sl, cl; sincosdL(double(bin[2]), sl, cl);
+    int f = fam == "ps" ? PS : fam == "lcc" ? LCC : ALB;
+    LD kk = fabsl((LD)k2);
+    r.str("out", res).b("fin", ok);
+    r.i("d", ok ? relq(truedist(f, (LD)x2 - xp, (LD)y2 - yp, k2, g2) / E.a) : -1);
+    r.i("dgm", ok ? relq(fabsl(remainderl((LD)g2 - gp, 360.0L)) * DEGL * cl) : -1);
+    r.i("dkk", ok ? relq(fabsl((LD)k2 - k) / kk * cl) : -1);
+    r.i("amp", ok ? relq(ldexpl(fmaxl(fabsl((LD)x2), fabsl((LD)y2)), -52) * (f == ALB ? fmaxl(kk, 1 / kk) : 1 / kk) / E.a) : 0);
+    r.i("cnd", relq(ldexpl(1.0L, -52) / cl));
+    r.emit();
+  }
+}
+
+static void do_anc(const vector<string>& t) {
+  // anc fam ct p1 p2 kc fi lat lon0 dl qty num den unit
+  string fam = t[1]; int ct = int(I(t[2])); long long p1 = I(t[3]), p2 = I(t[4]); int kc = int(I(t[5])), fi = int(I(t[6]));
+  long long lat = I(t[7]), lon0 = I(t[8]), dl = I(t[9]); string qty = t[10]; long long num = I(t[11]), den = I(t[12]); string unit = t[13];
+  const Fam& el = family()[fi]; EllL E(el);
+  double x = 0, y = 0, g = 0, k = 0;
+  string res = guarded([&] { Obj o = make_desc(fam, ct, p1, p2, kc, el); o.fwd(double(lon0), double(lat), double(lon0 + dl), x, y, g, k); });
+  LD u = unit == "a" ? E.a : unit == "arc" ? E.a * DEGL : 1.0L;
+  LD want = (LD)num / (LD)den, val = 0, resid = 0;
+  if (qty == "x") val = x / u; else if (qty == "y") val = y / u; else if (qty == "xx") val = ((LD)x / E.a) * ((LD)x / E.a);
+  else if (qty == "k") val = k; else if (qty == "kk") val = (LD)k * k; else val = g;
+  resid = qty == "g" ? fabsl(remainderl(val - want, 360.0L)) * DEGL : fabsl(val - want);
+  Rec r; r.str("e", "anc").str("fam", fam).i("ct", ct).i("p1", p1).i("p2", p2).i("kc", kc).i("fi", fi).i("lat", lat).i("lon0", lon0).i("dl", dl)
+    .str("qty", qty).i("num", num).i("den", den).str("unit", unit).str("out", res).b("fin", fin4(x, y, g, k)).i("res", relq(resid));
+  r.emit();
+}
+
+static void do_eqv(const vector<string>& t) {
+  // eqv famA ctA a1 a2 famB ctB b1 b2 kc
+  string fa = t[1], fb = t[5]; int cta = int(I(t[2])), ctb = int(I(t[6])); long long a1 = I(t[3]), a2 = I(t[4]), b1 = I(t[7]), b2 = I(t[8]); int kc = int(I(t[9]));
+  static const int FIS[] = {0, 8};
+  static const double PTS[3][3] = {{17, 25, 3}, {-60, 100, 0}, {80, -140, 10}};
+  for (int fi : FIS) {
+    const Fam& el = family()[fi]; EllL E(el);
+    LD wd = 0, wk = 0, wg = 0, wa = 0, wc = 0; long long dl0 = -1, dk0 = -1; bool fin = true;
+    string res = guarded([&] {
+      Obj A = make_desc(fa, cta, a1, a2, kc, el), B = make_desc(fb, ctb, b1, b2, kc, el);
+      int f = A.fam;
+      dl0 = fdeg(fabsl((LD)A.lat0() - B.lat0())); dk0 = relq(fabsl((LD)A.k0() - B.k0()) / A.k0());
+      for (auto& P : PTS) {
+        double x, y, g, k, x2, y2, g2, k2; A.fwd(P[2], P[0], P[1], x, y, g, k); B.fwd(P[2], P[0], P[1], x2, y2, g2, k2);
+        fin = fin && fin4(x, y, g, k) && fin4(x2, y2, g2, k2);
+        LD sl, cl; sincosdL(P[0], sl, cl); LD kk = fabsl((LD)k);
+        wd = fmaxl(wd, truedist(f, (LD)x2 - x, (LD)y2 - y, k, g) / E.a);
+        wk = fmaxl(wk, fabsl((LD)k2 - k) / kk * cl); wg = fmaxl(wg, fabsl(remainderl((LD)g2 - g, 360.0L)) * DEGL * cl);
+        wa = fmaxl(wa, ldexpl(fmaxl(fabsl((LD)x), fabsl((LD)y)), -52) * (f == ALB ? fmaxl(kk, 1 / kk) : 1 / kk) / E.a);
+        wc = fmaxl(wc, ldexpl(1.0L, -52) / cl);
+      }
+    });
+    Rec r; r.str("e", "eqv").str("fa", fa).i("cta", cta).i("a1", a1).i("a2", a2).str("fb", fb).i("ctb", ctb).i("b1", b1).i("b2", b2).i("kc", kc).i("fi", fi);
+    r.str("out", res).b("fin", fin && res == "ok").i("d", relq(wd)).i("dk", relq(wk)).i("dg", relq(wg)).i("dl0", dl0).i("dk0", dk0).i("amp", relq(wa)).i("cnd", relq(wc));
+    r.emit();
   }
 }
 
 int main(int argc, char** argv) {
   vt::install_terminate();
+  if (argc >= 2 && string(argv[1]) == "replay") {
+    string line;
+    while (getline(cin, line)) {
+      auto t = vt::split(line); if (t.empty()) continue;
+      if (t[0] == "ctor") do_ctor(t); else if (t[0] == "sets") do_sets(t); else if (t[0] == "sym") do_sym(t);
+      else if (t[0] == "anc") do_anc(t); else if (t[0] == "eqv") do_eqv(t);
+    }
+    return 0;
+  }
   if (argc >= 4 && string(argv[1]) == "record") { do_record(strtoull(argv[2], 0, 10), atoll(argv[3])); return 0; }
   if (argc >= 16 && string(argv[1]) == "dbg") {   // dbg fam ct a f p1 p2 s1 c1 s2 c2 k1 lon0 lat lon np : library and closed form side by side
     Spec sp; sp.fam = atoi(argv[2]); sp.ct = atoi(argv[3]); Fam el{strtod(argv[4], 0), strtod(argv[5], 0)};
